@@ -50,6 +50,7 @@ def _stable(snap):
 def configs(tier):
     # (N, mode, req) -> B
     q = [(2, "batchsize", 2), (2, "num_batches", 3), (4, "batchsize", 2),
+         (3, "batchsize", 2), (6, "batchsize", 4),
          (3, "num_batches", 2),
          (5, "num_batches", 3), (6, "batchsize", 2), (7, "num_batches", 4),
          (4, "batchsize", 1), (5, "batchsize", 2)]
@@ -487,10 +488,22 @@ def canon(w):
                             w.live_kind, w.live_ver == w.ver, w.ver)
 
 
+def scratch_name(cfg):
+    """where the crop lives: for every other configuration a directory whose
+    name holds the crop's own words and glob characters, else a plain one (a
+    tree that globs without escaping is blind in the former)"""
+    if cfg["mode"] == "batchsize" and cfg["N"] % cfg["req"]:
+        # (a short last batch - the one a sowing saves on its way out - is met
+        # in both kinds of directory)
+        return ["c08.results[1].batches", "c08"][cfg["N"] % 2]
+    return ["c08.results[1].batches", "c08"][
+        core.pick([cfg["N"], cfg["mode"], cfg["req"], "dir"], 2)]
+
+
 def expand(task):
     cfg, hist = task
     tier = os.environ.get("XV_TIER", "quick")
-    d = os.path.join(core.scratch_root(), "c08.results[1].batches")
+    d = os.path.join(core.scratch_root(), scratch_name(cfg))
     w, finished = build(cfg, hist, d, tier)
     out = {"hist": hist, "succ": []}
     if not hist:
@@ -553,7 +566,7 @@ def run(ctx):
 
 def replay(case):
     tier = "thorough"
-    d = os.path.join(core.scratch_root(), "c08.results[1].batches")
+    d = os.path.join(core.scratch_root(), scratch_name(case["cfg"]))
     hist = case["history"]
     w, finished = build(case["cfg"], hist[:-1], d, tier)
     try:
